@@ -1350,3 +1350,118 @@ Proof.
     cbn. unfold ind. cbn.
     replace (4 * 4) with (Rsqr 4) by (unfold Rsqr; ring). rewrite sqrt_Rsqr by lra. field.
 Qed.
+
+(* ------------------------------------------------------------------------------ *)
+(* the computed diff is linear in the seeds (used for the block  B + k*A  of the     *)
+(* non-flat steady Jacobian)                                                        *)
+(* ------------------------------------------------------------------------------ *)
+Section Linearity.
+Variable rho : token -> R.
+Variable lg : Z -> bool.
+Variable sd1 sd2 : token -> R.
+Variable c : R.
+Definition sd3 : token -> R := fun w => sd1 w + c * sd2 w.
+
+Definition lin3 (v1 v2 v3 : val RD) : Prop :=
+  match v1, v2, v3 with
+  | VA d1, VA d2, VA d3 => fst d2 = fst d1 /\ fst d3 = fst d1 /\ snd d3 = snd d1 + c * snd d2
+  | VC a, VC b, VC e => b = a /\ e = a
+  | VRej, VRej, VRej => True
+  | _, _, _ => False
+  end.
+
+Ltac lin_crush :=
+  repeat match goal with
+         | d : dual RD |- _ => destruct d
+         | d : (dcar RD * dcar RD)%type |- _ => destruct d
+         | H : _ /\ _ |- _ => destruct H
+         end;
+  simpl in *; subst;
+  repeat split; try reflexivity; try (unfold Rdiv; ring).
+
+Lemma eval_linear : forall t : tree RD,
+  lin3 (eval RD rho sd1 lg t) (eval RD rho sd2 lg t) (eval RD rho sd3 lg t).
+Proof.
+  induction t as [k | q s | a IHa | a IHa | o a IHa b IHb | f a IHa | f a IHa b IHb | f a IHa]; cbn [eval].
+  - simpl. auto.
+  - simpl. unfold sd3, atom_diff. destruct (lg q); simpl; repeat split; ring.
+  - unfold lin3 in *. destruct (eval RD rho sd1 lg a), (eval RD rho sd2 lg a), (eval RD rho sd3 lg a);
+      try contradiction; try exact I; lin_crush.
+  - unfold lin3 in *. destruct (eval RD rho sd1 lg a), (eval RD rho sd2 lg a), (eval RD rho sd3 lg a);
+      try contradiction; try exact I; lin_crush.
+  - unfold lin3 in *.
+    destruct (eval RD rho sd1 lg a), (eval RD rho sd2 lg a), (eval RD rho sd3 lg a); try contradiction;
+    destruct (eval RD rho sd1 lg b), (eval RD rho sd2 lg b), (eval RD rho sd3 lg b); try contradiction;
+    try exact I; simpl apply_bop; try exact I.
+    + lin_crush.
+    + destruct o; unfold atom_bop_ca; try (destruct has_rpow; [ | exact I ]); lin_crush.
+    + destruct o; unfold atom_bop_ac; lin_crush.
+    + destruct o; unfold atom_bop_aa; lin_crush.
+  - unfold lin3 in *. destruct (eval RD rho sd1 lg a), (eval RD rho sd2 lg a), (eval RD rho sd3 lg a);
+      try contradiction; try exact I; simpl apply_fn.
+    + lin_crush.
+    + destruct (is_method (fn_name f)); [ | exact I ]. destruct f; try exact I; lin_crush.
+  - unfold lin3 in *.
+    destruct (eval RD rho sd1 lg a), (eval RD rho sd2 lg a), (eval RD rho sd3 lg a); try contradiction;
+    destruct (eval RD rho sd1 lg b), (eval RD rho sd2 lg b), (eval RD rho sd3 lg b); try contradiction;
+    try exact I; simpl apply_fn2; try exact I.
+    + lin_crush.
+    + destruct (is_method (fn2_name f)); [ | exact I ]. destruct f; unfold atom_fn2_ac; lin_crush.
+    + destruct (is_method (fn2_name f)); [ | exact I ]. destruct f; unfold atom_fn2_aa; lin_crush.
+  - unfold lin3 in *. destruct (eval RD rho sd1 lg a), (eval RD rho sd2 lg a), (eval RD rho sd3 lg a);
+      try contradiction; try exact I; simpl apply_fn2d; try exact I.
+    destruct (is_method (fn2_name f)); [ | exact I ]. destruct f; unfold atom_fn2_ac; lin_crush.
+Qed.
+End Linearity.
+
+(* the second block row of the non-flat steady Jacobian, [Ak, Bk + k*Ak]: the residuals evaluated k periods
+   ahead, differentiated w.r.t. the (log) level and the (log) change *)
+Theorem steady_level_shifted : forall (t : tree RD) (lg : Z -> bool) (lev chg : Z -> R) (q0 k : Z),
+  adm t (shift_rho RD (steady_path lg lev chg) k) ->
+  result_ok (fun u => shift_rho RD (steady_path lg (updz lev q0 u) chg) k) (lev q0) t
+            (eval RD (shift_rho RD (steady_path lg lev chg) k) (seed_level RD q0) lg t).
+Proof.
+  intros t lg lev chg q0 k Hadm.
+  pose proof (eval_correct (fun u => shift_rho RD (steady_path lg (updz lev q0 u) chg) k) (seed_level RD q0) lg (lev q0) t) as H.
+  cbv beta in H. rewrite updz_same in H. apply H; [ | assumption ].
+  intros [q s] _. unfold leaf_ok. cbv beta. rewrite updz_same.
+  unfold shift_rho, steady_path, seed_level, updz. simpl.
+  destruct (Z.eqb q q0) eqn:E.
+  - apply Z.eqb_eq in E. subst q. destruct (lg q0); unfold atom_diff; simpl.
+    + ad_start; [ ad_conds | ringR ].
+    + ad_start; [ ad_conds | ringR ].
+  - rewrite atom_diff_zero. apply is_derive_const_R.
+Qed.
+
+Theorem steady_change_shifted : forall (t : tree RD) (lg : Z -> bool) (lev chg : Z -> R) (q0 k : Z),
+  adm t (shift_rho RD (steady_path lg lev chg) k) ->
+  match eval RD (shift_rho RD (steady_path lg lev chg) k) (seed_level RD q0) lg t,
+        eval RD (shift_rho RD (steady_path lg lev chg) k) (seed_change RD q0) lg t with
+  | VA dA, VA dB =>
+      is_derive (fun u => den t (shift_rho RD (steady_path lg lev (updz chg q0 u)) k)) (chg q0)
+                (snd dB + IZR k * snd dA)
+  | _, _ => True
+  end.
+Proof.
+  intros t lg lev chg q0 k Hadm.
+  set (rk := shift_rho RD (steady_path lg lev chg) k) in *.
+  pose proof (eval_linear rk lg (seed_change RD q0) (seed_level RD q0) (IZR k) t) as L.
+  pose proof (eval_correct (fun u => shift_rho RD (steady_path lg lev (updz chg q0 u)) k)
+                (sd3 (seed_change RD q0) (seed_level RD q0) (IZR k)) lg (chg q0) t) as H.
+  cbv beta in H. rewrite updz_same in H. fold rk in H.
+  unfold lin3 in L.
+  destruct (eval RD rk (seed_level RD q0) lg t) as [ | dA | ]; try exact I.
+  destruct (eval RD rk (seed_change RD q0) lg t) as [ | dB | ]; try exact I.
+  destruct (eval RD rk (sd3 (seed_change RD q0) (seed_level RD q0) (IZR k)) lg t) as [ | d3 | ]; try contradiction.
+  destruct L as (_ & _ & L3). rewrite <- L3.
+  assert (Hok : result_ok (fun u => shift_rho RD (steady_path lg lev (updz chg q0 u)) k) (chg q0) t (VA d3)).
+  { apply H; [ | assumption ].
+    intros [q s] _. unfold leaf_ok. cbv beta. rewrite updz_same.
+    unfold shift_rho, steady_path, sd3, seed_level, seed_change, updz. simpl.
+    destruct (Z.eqb q q0) eqn:E.
+    - apply Z.eqb_eq in E. subst q. rewrite plus_IZR. destruct (lg q0); unfold atom_diff; simpl.
+      + ad_start; [ ad_conds | ringR ].
+      + ad_start; [ ad_conds | ringR ].
+    - replace (0 + IZR k * 0) with 0 by ring. rewrite atom_diff_zero. apply is_derive_const_R. }
+  exact (proj2 Hok).
+Qed.
